@@ -1233,7 +1233,8 @@ def _oauth_escape(val: str | bytes) -> str:
 def _oauth_normalize_netloc(scheme: str, netloc: str) -> str:
     # RFC 5849 section 3.4.1.2: the host is lowercased and the port is
     # included only if it is not the default port for the scheme.
-    netloc = netloc.lower()
+    # userinfo is not part of the authority the server sees (Host header)
+    netloc = netloc.rpartition("@")[2].lower()
     default_port = {"http": ":80", "https": ":443"}.get(scheme.lower())
     if default_port and netloc.endswith(default_port):
         netloc = netloc[: -len(default_port)]
